@@ -45,6 +45,7 @@ type Cfg struct {
 	Seed     int     `json:"seed"`   // Unfold seed
 	Gate     bool    `json:"gate"`   // user calls block until released
 	StdErr   bool    `json:"stderr"` // attach pipe.StdErr to the error channel instead of a harness consumer
+	Dup      []int   `json:"dup,omitempty"`    // Join: indices of input channels handed to Join a second time
 	Stages   []Cfg   `json:"stages,omitempty"` // kind Pipeline: the stages, first to last (their error channels go to pipe.StdErr)
 }
 
@@ -501,6 +502,9 @@ func (c *ctl) build() {
 		rs := make([]<-chan int, nin)
 		for i := range c.ins {
 			rs[i] = c.ins[i]
+		}
+		for _, i := range cfg.Dup {
+			rs = append(rs, c.ins[i])
 		}
 		var out <-chan int
 		if cfg.Forked {
